@@ -51,48 +51,49 @@ def y1(prog):
 
 
 def n1(prog):
-    """format directives are implemented as their documented %( ... %) expansions: the scanner action of each <STRING>"%X" rule,
-    interpreted from source, flushes the pending text and pushes exactly parse_subquery (BODY) with the BODY that doc/syntax.rst gives
-    for it (so `%x` and `%( value hex %)` build the same tree whatever helper the action goes through)"""
-    import scanner
-    from cxxobj import StdStr, OutOfBounds
+    """format directives are their documented %( ... %) expansions: for each `%X stands for %( BODY %)` row of doc/syntax.rst the
+    simulated scanner (rule selection from lexer.ll's patterns, actions interpreted; parse_subquery summarised by the text it is
+    given) builds the same tree for "pending%X" and for "pending%( BODY %)" - pending text flushed, then exactly one sub-query with
+    the documented body - and the literal ends normally.  Independent of how the rules are written (one rule per directive, one
+    rule with a switch, a helper)."""
+    import flexsim
     inst, findings = [], []
     doc = open(os.path.join(REPO, "doc/syntax.rst")).read()
     rows = dict(re.findall(r"``(%[a-z])`` stands for ``%\((.*?)%\)``", doc))
     if len(rows) < 5:
         raise Broken("fewer documented format directives than confirmed by hand (5): %s" % sorted(rows))
-    conds, rs = scanner.rules()
-    have = {r[1][1:-1]: r for r in rs if r[0] == "STRING" and re.fullmatch(r'"%[a-z]"', r[1])}
-    subs = []
-    ev = scanner.make_evaluator(prog, subs)
+    sc = _scanner(prog)
+
+    def tree_of(text):
+        try:
+            toks, _ = sc.tokens(text)
+        except flexsim.ScanError as x:
+            return ("error", str(x))
+        if [t[0] for t in toks] != ["TOK_LIT_STR", "TOK_EOF"]:
+            return ("tokens", tuple(t[0] for t in toks))
+        def norm(t):
+            tt, s_, kids = t
+            return (tt, b" ".join(s_.split()) if (s_ is not None and tt == "CAT") else s_, tuple(norm(k) for k in kids))
+        return norm(toks[0][1])
     for d, body in sorted(rows.items()):
         key = "N1:" + d
-        if d not in have:
-            inst.append((key, {"documented": body.strip(), "implemented": None}))
-            findings.append({"key": key, "where": "libzwerg/lexer.ll", "msg": "documented directive %s has no scanner rule" % d, "detail": None})
+        for pre, post in ((b"pending", b""), (b"", b"tail"), (b"a", b"%%")):
+            got = tree_of(b'"' + pre + d.encode() + post + b'"')
+            want = tree_of(b'"' + pre + b"%(" + body.encode() + b"%)" + post + b'"')
+            if got != want or not (isinstance(want, tuple) and want and want[0] == "FORMAT"):
+                findings.append({"key": key, "where": "libzwerg/lexer.ll",
+                                 "msg": "`%s` is documented as `%%(%s%%)` but \"%s%s%s\" scans to %s while the expansion scans to %s" % (
+                                     d, body, pre.decode(), d, post.decode(), got, want), "detail": None})
+                break
+        inst.append((key, {"documented": body.strip()}))
+    # a directive letter the documentation does not define must not be a directive
+    for ch in "acefghijklmnpqrtuvwyz":
+        d = "%" + ch
+        if d in rows:
             continue
-        f = scanner.new_fmtlit(prog, ev)
-        f.str = StdStr(b"pending")
-        del subs[:]
-        try:
-            r = scanner.run(prog, ev, have[d], d.encode(), f, conds)
-        except OutOfBounds as x:
-            raise Broken("the action of <STRING>\"%s\" cannot be evaluated: %s" % (d, x))
-        kids = f.t.m_children.items
-        got = subs[0].decode("latin-1") if len(subs) == 1 else None
-        inst.append((key, {"documented": body.strip(), "implemented": got}))
-        where = "libzwerg/lexer.ll:%d" % have[d][2]
-        if r["threw"] or r["token"] is not None or r["state"] is not None:
-            findings.append({"key": key, "where": where, "msg": "the action of `%s` leaves the string (token %s, state %s, exception %s) instead of splicing a sub-query" % (d, r["token"], r["state"], r["threw"]), "detail": None})
-        elif got is None or got.split() != body.split():
-            findings.append({"key": key, "where": where,
-                             "msg": "`%s` is documented as `%%(%s%%)` but implemented as %s" % (d, body, ("`%%( %s %%)`" % got) if got is not None else "%d sub-queries" % len(subs)), "detail": None})
-        elif len(kids) != 2 or getattr(kids[0], "m_str", None) is None or kids[0].m_str.b != b"pending" or getattr(kids[1], "m_str", None) is None or kids[1].m_str.b != subs[0] or f.str.b != b"":
-            findings.append({"key": key, "where": where,
-                             "msg": "`%s` does not flush the text before it and then push its sub-query (children: %d, pending text `%s`)" % (d, len(kids), f.str.b.decode("latin-1")), "detail": None})
-    for d in have:
-        if d not in rows:
-            findings.append({"key": "N1:" + d, "where": "libzwerg/lexer.ll:%d" % have[d][2], "msg": "scanner implements directive %s which doc/syntax.rst does not define" % d, "detail": None})
+        got = tree_of(b'"x' + d.encode() + b'"')
+        if not (isinstance(got, tuple) and got and got[0] == "FORMAT" and len(got[2]) == 1 and got[2][0][1] == b"x" + d.encode()):
+            findings.append({"key": "N1:" + d, "where": "libzwerg/lexer.ll", "msg": "the scanner treats %s, which doc/syntax.rst does not define, as a directive: \"x%s\" scans to %s" % (d, d, got), "detail": None})
     return inst, findings
 
 
